@@ -102,7 +102,13 @@ class EvolvableBERT(EvolvableModule):
             else:
                 self.wpe = PositionalEncoding(self.d_model, self.decoder_layers[0])
 
-        self.encoder, self.decoder = self.build_networks()
+        encoder, decoder = self.build_networks()
+
+        # Initialise the embeddings / generator once, at construction. This must not happen in
+        # build_networks(): recreate_network() calls it while the trained encoder and decoder are
+        # still attached, and they would be re-initialised before their weights are carried over.
+        self._reset_parameters()
+        self.encoder, self.decoder = encoder, decoder
         self.encoder_keys = list(self.encoder.keys())
         self.decoder_keys = list(self.decoder.keys())
 
@@ -162,8 +168,6 @@ class EvolvableBERT(EvolvableModule):
                     self.d_model, eps=self.layer_norm_eps, device=self.device
                 )
             )
-
-        self._reset_parameters()
 
         return nn.ModuleDict(encoder_dict), nn.ModuleDict(decoder_dict)
 
@@ -625,6 +629,10 @@ class EvolvableBERT(EvolvableModule):
 
         self.encoder = new_encoder
         self.decoder = new_decoder
+
+        # forward() iterates over these: keep them in step with the re-created layers
+        self.encoder_keys = list(self.encoder.keys())
+        self.decoder_keys = list(self.decoder.keys())
 
 
 def _canonical_mask(
